@@ -49,7 +49,7 @@ _Bool G_step_fell;        /* set by the outlined loop body when it falls off its
 #define AC_LOOP_BWS IORA_LC( \
   __CPROVER_assigns(q, sawBws) \
   __CPROVER_loop_invariant(hexEnd <= q && q <= lineEnd && sawBws == (q > hexEnd)) \
-  __CPROVER_loop_invariant(AC_HEXWIT((hexEnd <= GF && GF < q) ==> IORA_IS_OWS(buf.p[GF]))) \
+  __CPROVER_loop_invariant(AC_HEXWIT(q > hexEnd ==> IORA_IS_OWS(buf.p[hexEnd]))) \
   __CPROVER_decreases(lineEnd - q))
 /* loop 4 (trailer section): tp only moves forward, from line start to line start */
 #define AC_LOOP_TRAILER IORA_LC( \
